@@ -542,6 +542,30 @@ func (rs *regionState) applyOp(obs string) bool {
 	return true
 }
 
+// genReject: the reject-leader label property: none, one entry, or several entries – on the same key
+// with different values and on different keys (a store may match only the second or third entry)
+func genReject(r *rng.R) string {
+	switch r.Pick(55, 15, 30) {
+	case 0:
+		return "-"
+	case 1:
+		return "zone:" + pick(r, zoneVals)
+	}
+	var entries []string
+	seen := map[string]bool{}
+	for k := r.Range(2, 3); k > 0; k-- {
+		e := "zone:" + pick(r, zoneVals)
+		if r.Bool(1, 3) {
+			e = "host:" + pick(r, hostVals)
+		}
+		if !seen[e] {
+			seen[e] = true
+			entries = append(entries, e)
+		}
+	}
+	return strings.Join(entries, ",")
+}
+
 func gen(w *world, t *trace.W, r *rng.R, malformed bool) {
 	w.run(t, "reset")
 	maxrep := r.Pick(0, 10, 15, 60, 10, 5)
@@ -557,10 +581,7 @@ func gen(w *world, t *trace.W, r *rng.R, malformed bool) {
 		ls = strings.Join(labels, ",")
 	}
 	rules := r.Pick(60, 40)
-	reject := "-"
-	if r.Bool(1, 5) {
-		reject = "zone:" + pick(r, zoneVals)
-	}
+	reject := genReject(r)
 	w.run(t, fmt.Sprintf("opt maxrep=%d labels=%s level=- low=3/4 maxdown=1800 maxsnap=3 maxpend=16 reject=%s flags=domxl rules=%d jc=%d",
 		maxrep, ls, reject, rules, r.Intn(2)))
 	n := r.Range(maxrep+1, maxrep+6)
